@@ -1,7 +1,7 @@
 /* big_world.c -- complement to the closure searches: an ENUMERATED family of large deterministic histories, for behaviour that depends on
  * the NUMBER of elements / buckets rather than on a shape a small pool can reach (tree height at 1000+ nodes, tables of 1024+ buckets,
  * lists and maps of thousands of elements).  Not a sample: a fixed, listed set of (container, size, insertion order, erase order) cases,
- * every one executed completely against a reference.  Serves C01, C02, C03, C04, C08, C09, C10, C12, C13, C19 (the property selects the oracle). */
+ * every one executed completely against a reference.  Serves C01, C02, C03, C04, C05, C08, C09, C10, C12, C13, C14, C19, C20 (the property selects the oracle). */
 #define _GNU_SOURCE
 #include "cstl/rbtree.h"
 #include "cstl/map.h"
@@ -9,6 +9,8 @@
 #include "cstl/slist.h"
 #include "cstl/vector.h"
 #include "cstl/string.h"
+#include "cstl/memory.h"
+#include "cstl/array.h"
 #include <wchar.h>
 #include "hash.c"
 #include "../engine/shim.h"
@@ -247,6 +249,75 @@ static void list_case(int dl, unsigned n, int ord)
 }
 
 /* every case runs under the abort trap and the hang watchdog */
+/* ================= reference counts beyond 2^16 ================= */
+/* A count of references is a number like any other size: 65535, 65536, 65537 and 70000 simultaneous owners / weak references / array
+ * views of one allocation, created with the library's own share / weak_from / slice only, released in two orders. */
+#define MAXR 70016
+static cstl_shared_ptr_t RS[MAXR];
+static cstl_array_t RA[MAXR];
+static int r_clears; static void *r_cleared;
+static void r_clear(void *p, void *q) { (void)q; r_clears++; r_cleared = p; }
+static void refs_case(int kind, unsigned n, int ord)
+{
+    unsigned i; void *base; int ab; static volatile int u; static void * volatile g;
+    setcase("refs:%d:%u:%d", kind, n, ord);
+    shim_reset(); r_clears = 0; r_cleared = NULL;
+    if (kind == 2) {
+        for (i = 0; i < n; i++) cstl_array_init(&RA[i]);
+        SHIM_CALL(ab, cstl_array_alloc(&RA[0], 8, 4)); if (ab) { fail("array alloc aborted"); return; }
+        base = cstl_array_data(&RA[0]);
+        for (i = 1; i < n && !nviol; i++) {
+            SHIM_CALL(ab, cstl_array_slice(&RA[(i & 1) ? 0 : i - 1], 0, 8, &RA[i])); evals++;
+            if (ab) { fail("creating view #%u of one buffer with cstl_array_slice %s", i + 1, ab == 2 ? "hit an assertion" : "aborted"); return; }
+        }
+        for (i = 0; i + 1 < n && !nviol; i++) {
+            unsigned k = ord ? n - 1 - i : i, last = ord ? 0 : n - 1;
+            SHIM_CALL(ab, cstl_array_reset(&RA[k])); evals++;
+            if (ab) { fail("reset of view #%u aborted", k); return; }
+            if (i < 4 || (i & 1023) == 0 || i + 5 > n) {
+                SHIM_CALL(ab, g = cstl_array_at(&RA[last], 7));
+                CHECK(!ab && g == (char *)base + 28 && shim_find(base) != NULL, "after %u of %u views were reset the buffer is gone or at() fails although a view still refers to it", i + 1, n);
+            }
+            CHECK(shim_nlive() >= 1, "after %u of %u views were reset no allocation is alive", i + 1, n);
+        }
+        SHIM_CALL(ab, cstl_array_reset(&RA[ord ? 0 : n - 1]));
+        CHECK(!ab && shim_nlive() == 0 && shim_errors == 0, "after the last of %u views was reset %d allocation(s) are alive / %d bad free()s", n, shim_nlive(), shim_errors);
+        return;
+    }
+    for (i = 0; i < n; i++) cstl_shared_ptr_init(&RS[i]);
+    SHIM_CALL(ab, cstl_shared_ptr_alloc(&RS[0], 48, r_clear)); if (ab) { fail("alloc aborted"); return; }
+    base = cstl_shared_ptr_get(&RS[0]);
+    for (i = 1; i < n && !nviol; i++) {
+        if (kind == 0) SHIM_CALL(ab, cstl_shared_ptr_share(&RS[(i & 1) ? 0 : i - 1], &RS[i])); else SHIM_CALL(ab, cstl_weak_ptr_from(&RS[i], &RS[0]));
+        evals++;
+        if (ab) { fail("creating %s #%u of one allocation %s", kind ? "weak reference" : "owner", i + 1, ab == 2 ? "hit an assertion" : "aborted"); return; }
+    }
+    SHIM_CALL(ab, u = cstl_shared_ptr_unique(&RS[0])); CHECK(!ab && !u, "unique() is true with %u other references", n - 1);
+    if (kind == 0) {
+        for (i = 0; i + 1 < n && !nviol; i++) {
+            unsigned k = ord ? n - 1 - i : i, last = ord ? 0 : n - 1;
+            SHIM_CALL(ab, cstl_shared_ptr_reset(&RS[k])); evals++;
+            if (ab) { fail("reset of owner #%u aborted", k); return; }
+            CHECK(r_clears == 0 && shim_find(base) != NULL, "the managed memory was cleared/freed when owner %u of %u let go (%u owners remain)", i + 1, n, n - 1 - i);
+            if (i < 4 || (i & 1023) == 0 || i + 5 > n) { SHIM_CALL(ab, g = cstl_shared_ptr_get(&RS[last])); CHECK(!ab && g == base, "get() of a remaining owner changed"); }
+        }
+        SHIM_CALL(ab, u = cstl_shared_ptr_unique(&RS[ord ? 0 : n - 1])); CHECK(!ab && u, "unique() is false for the only remaining owner");
+        SHIM_CALL(ab, cstl_shared_ptr_reset(&RS[ord ? 0 : n - 1]));
+        CHECK(!ab && r_clears == 1 && r_cleared == base && shim_nlive() == 0 && shim_errors == 0, "after the last of %u owners let go: %d clear calls, %d allocation(s) alive", n, r_clears, shim_nlive());
+    } else {
+        /* one owner, n-1 weak references: ord 0 releases the weak ones first, ord 1 the owner first */
+        if (ord) { SHIM_CALL(ab, cstl_shared_ptr_reset(&RS[0])); CHECK(!ab && r_clears == 1 && shim_nlive() == 1, "owner reset with %u weak references outstanding: %d clear calls, %d allocations alive (the bookkeeping must survive)", n - 1, r_clears, shim_nlive()); }
+        for (i = 1; i < n && !nviol; i++) {
+            SHIM_CALL(ab, cstl_weak_ptr_reset(&RS[i])); evals++;
+            if (ab) { fail("reset of weak reference #%u aborted", i); return; }
+            if (i + 1 < n) CHECK(shim_nlive() == (ord ? 1 : 2) && r_clears == ord, "after %u of %u weak references were reset: %d allocation(s) alive, %d clear calls", i, n - 1, shim_nlive(), r_clears);
+            if (!ord && i + 1 < n && (i < 4 || (i & 1023) == 0 || i + 5 > n)) { SHIM_CALL(ab, u = cstl_shared_ptr_unique(&RS[0])); CHECK(!ab && !u, "unique() is true while %u weak references remain", n - 1 - i); }
+        }
+        if (!ord) { SHIM_CALL(ab, u = cstl_shared_ptr_unique(&RS[0])); CHECK(!ab && u, "unique() is false after every weak reference was reset"); SHIM_CALL(ab, cstl_shared_ptr_reset(&RS[0])); }
+        CHECK(r_clears == 1 && shim_nlive() == 0 && shim_errors == 0, "at the end: %d clear calls, %d allocation(s) alive", r_clears, shim_nlive());
+    }
+}
+
 #define GUARDED(CALL) do { int ab_; SHIM_CALL(ab_, CALL); shim_in_lib = 0; if (ab_) fail(ab_ == 3 ? "a library call did not terminate within 3 s" : ab_ == 2 ? "assertion failure inside the library: %s" : "abort() inside the library%s", ab_ == 2 ? shim_assert_msg : ""); } while (0)
 /* ================= vector ================= */
 static long vx_cons, vx_dest;
@@ -332,6 +403,13 @@ static void run_family(int thorough, const char *only)
         static const size_t geo[][3] = { { 16, 1024, 64 }, { 1024, 2048, 1024 }, { 7, 1031, 5 }, { 2048, 16, 4096 }, { 64, 64 * 3, 1 }, { 8192, 16384, 4096 }, { 16384, 64, 8192 } }; unsigned g;
         for (g = 0; g < 7 && !nviol; g++) { GUARDED(hash_case(3000, geo[g][0], geo[g][1], geo[g][2])); GUARDED(hash_case(4, geo[g][0], geo[g][1], geo[g][2])); GUARDED(hash_case(97, geo[g][0], geo[g][1], geo[g][2])); }
     }
+    if (is("C05") || is("C14") || is("C20")) {
+        static const unsigned rn[] = { 65535, 65536, 65537, 70000 }; unsigned r; int k, o;
+        for (r = 0; r < 4 && !nviol; r++) for (o = 0; o < 2 && !nviol; o++) for (k = 0; k < 3 && !nviol; k++) {
+            if (is("C14") ? k != 2 : (is("C05") && k == 2)) continue;
+            GUARDED(refs_case(k, rn[r], o));
+        }
+    }
     if (is("C09")) { static const size_t ess[] = { 1, 3, 4, 8, 24, 64 }; unsigned e; for (e = 0; e < 6 && !nviol; e++) for (a = 0; a < 3 && !nviol; a++) { GUARDED(vector_case(ess[e], 0, a)); if (ess[e] >= 4) GUARDED(vector_case(ess[e], 1, a)); } }
     if (is("C10")) for (a = 0; a < 3 && !nviol; a++) { GUARDED(bigstring(a)); GUARDED(bigwstring(a)); }
     if (is("C12") || is("C13")) for (ni = 0; ni < nn && !nviol; ni++) for (a = 0; a < 5 && !nviol; a++) GUARDED(list_case(is("C12"), tn[ni] == 2049 ? 4097 : tn[ni], a));
@@ -353,7 +431,7 @@ int main(int argc, char **argv)
         else if (!strcmp(argv[i], "--nconfigs")) { printf("1\n"); return 0; }
         else { fprintf(stderr, "bad arg %s\n", argv[i]); return 2; }
     }
-    if (!(is("C01") || is("C02") || is("C03") || is("C04") || is("C08") || is("C09") || is("C10") || is("C12") || is("C13") || is("C19"))) { fprintf(stderr, "big: property not served\n"); return 2; }
+    if (!(is("C01") || is("C02") || is("C03") || is("C04") || is("C08") || is("C09") || is("C10") || is("C12") || is("C13") || is("C19") || is("C05") || is("C14") || is("C20"))) { fprintf(stderr, "big: property not served\n"); return 2; }
     if (replay) {
         int a, b, c, d; unsigned n; size_t x, y, z;
         if (sscanf(replay, "tree:%d:%u:%d:%d:%d", &a, &n, &b, &c, &d) == 5) GUARDED(tree_case(a, n, b, c, d));
@@ -361,6 +439,7 @@ int main(int argc, char **argv)
         else if (sscanf(replay, "hash:%u:%zu:%zu:%zu", &n, &x, &y, &z) == 4) GUARDED(hash_case(n, x, y, z));
         else if (sscanf(replay, "list:%d:%u:%d", &a, &n, &b) == 3) GUARDED(list_case(a, n, b));
         else if (sscanf(replay, "vector:%zu:%d:%d", &x, &a, &b) == 3) GUARDED(vector_case(x, a, b));
+        else if (sscanf(replay, "refs:%d:%u:%d", &a, &n, &b) == 3) GUARDED(refs_case(a, n, b));
         else if (sscanf(replay, "bigstring:%d", &a) == 1) GUARDED(bigstring(a));
         else if (sscanf(replay, "bigwstring:%d", &a) == 1) GUARDED(bigwstring(a));
         else return 4;
